@@ -1155,3 +1155,49 @@ Theorem del_reports_failure_after_change_refuted :
   | _ => False
   end.
 Proof. vm_compute. repeat split. Qed.
+
+(* ------------------------------------------------------------------ the tokener's temporary numeric locale *)
+(* every allocator behaviour (duplocale refused, newlocale refused, both granted): Done — one
+   new object, the temporary locale, is live; Refused (the parse reports "memory" before reading
+   a character) — exactly the blocks that were live: the copy, if it was made, was released *)
+Theorem locale_setup_clean o s :
+  op_fault_clean same_live s (fun s' l => live s' = l :: live s) (res_out (locale_setup o s)).
+Proof.
+  unfold locale_setup, locale_setup_gen, alloc, same_live. destruct (o (nreq s)); cbn; [|reflexivity].
+  destruct (o (S (nreq s))); cbn; [reflexivity|]. unfold free. cbn. rewrite Nat.eqb_refl. reflexivity.
+Qed.
+
+(* the whole call: whatever the parse proper does in between (as long as it leaves the temporary
+   locale alone), the locale object is gone afterwards, released once *)
+Theorem parse_bracket_clean o body s :
+  (forall l s1, live s1 = l :: live s -> exists rest, live (body s1) = l :: rest) ->
+  match parse_bracket o body s with
+  | Ok _ s' => exists l s1, locale_setup o s = Ok l s1 /\ live (body s1) = l :: live s'
+  | Fail s' => live s' = live s
+  | UB => False
+  end.
+Proof.
+  intros Hb. unfold parse_bracket. pose proof (locale_setup_clean o s) as L.
+  destruct (locale_setup o s) as [l s1|s1|]; cbn [res_out op_fault_clean] in L; [|exact L|exact L].
+  destruct (Hb l s1 L) as (rest & Hr). unfold locale_teardown, free. rewrite Hr, remove1_head.
+  exists l, s1. split; [reflexivity|]. rewrite Hr. reflexivity.
+Qed.
+
+(* negative control: the helper that trusts newlocale to take the copy over in every case.
+   duplocale is request 10, newlocale request 11 and refused: "memory" is reported — and the
+   copy, block 10, is still live.  Plus non-vacuity of the statement above. *)
+Theorem locale_copy_leak_refuted :
+  locale_setup_trusting (single_fault 11) (mkast 10 [3%nat]) = Fail (mkast 12 [10; 3]%nat) /\
+  ~ op_fault_clean same_live (mkast 10 [3%nat]) (fun _ _ => True)
+      (res_out (locale_setup_trusting (single_fault 11) (mkast 10 [3%nat]))) /\
+  locale_setup (single_fault 11) (mkast 10 [3%nat]) = Fail (mkast 12 [3%nat]) /\
+  locale_setup (single_fault 10) (mkast 10 [3%nat]) = Fail (mkast 11 [3%nat]) /\
+  locale_setup no_fault (mkast 10 [3%nat]) = Ok 10%nat (mkast 12 [10; 3]%nat) /\
+  parse_bracket no_fault (fun s => s) (mkast 10 [3%nat]) = Ok tt (mkast 12 [3%nat]).
+Proof.
+  assert (E : locale_setup_trusting (single_fault 11) (mkast 10 [3%nat]) = Fail (mkast 12 [10; 3]%nat))
+    by (vm_compute; reflexivity).
+  split; [exact E|]. split.
+  - rewrite E. cbn [res_out op_fault_clean]. unfold same_live. cbn [live]. discriminate.
+  - vm_compute. repeat split.
+Qed.
